@@ -949,9 +949,15 @@ func (s *spec) stepRequest(w *engine.World, ctx sdk.Context, m *model, kind stri
 		r.IncOpen = true
 		st.Saw("req-during-handover:also-put-to-incoming-group")
 	} else if inE {
-		if incOK {
-			st.Violate("request-not-put-to-incoming-group", "incoming group %d has %d eligible members (threshold %d) but was not asked", m.Tr.Incoming, eligInc, s.threshold(m.Tr.Incoming))
+		// best effort: the incoming group is asked after the current group's committee has taken its
+		// nonce pairs (members may sit in both groups), and a failed attempt leaves no trace, so the
+		// state after the request is exactly what the attempt saw
+		if after := s.eligible(w, ctx, m.Tr.Incoming); after >= s.threshold(m.Tr.Incoming) {
+			st.Violate("request-not-put-to-incoming-group", "incoming group %d has %d eligible members (threshold %d; %d before the request) but was not asked", m.Tr.Incoming, after, s.threshold(m.Tr.Incoming), eligInc)
 			return
+		}
+		if incOK {
+			st.Saw("req-during-handover:incoming-group-unable:nonces-taken-by-current-group-signing")
 		}
 		st.Saw("req-during-handover:incoming-group-unable")
 	}
